@@ -5,7 +5,7 @@ import (
 	"strings"
 )
 
-func isRF(k string) bool { return k == OpRFB || k == OpRFF || k == OpRFL }
+func isRF(k string) bool { return k == OpRFB || k == OpRFF || k == OpRFL || k == OpRFX }
 
 func headClause(c string) bool {
 	return c == "status-mismatch" || c == "header-missing" || strings.HasPrefix(c, "framing-")
@@ -113,6 +113,34 @@ func Signature(vs []Verdict, p Program, r *Result) string {
 				fam = c
 			}
 		}
+		if op.K == OpRFX && !(fam == "malformed" && class == "head-already-encoded") {
+			// the file-segment family (the known Flush-before-length failure apart): the failure family plus
+			// what selects the path in ReadFrom -
+			// connection kind, framing, whether the segment is empty - never sizes or offsets
+			framing := "no-content-length"
+			switch {
+			case pm.HdrZ["Trailer"] != "" || pm.HdrZ["Transfer-Encoding"] != "":
+				framing = "chunked-requested"
+			case pm.DeclaredCL() > 0:
+				framing = "content-length"
+			case pm.DeclaredCL() == 0:
+				framing = "content-length-0"
+			}
+			head := "head-unencoded"
+			if pre.HeadEncoded {
+				head = "head-already-encoded"
+			}
+			seg := "segment"
+			switch {
+			case op.N == 0:
+				seg = "empty-limit"
+			case op.Count() == 0:
+				seg = "at-eof"
+			case op.N > op.Count():
+				seg = "limit-beyond-eof"
+			}
+			return "readfrom-" + fam + " file-segment " + seg + " " + conn + "-conn " + framing + " " + head
+		}
 		if class == "prepared" {
 			// the one supported usage: keep full detail
 			return "readfrom-" + fam + " prepared " + op.K + "/" + conn + " " + sig
@@ -214,10 +242,7 @@ func validProgram(p Program) bool {
 				return false
 			}
 		}
-		switch op.K {
-		case OpW, OpWS, OpRFB, OpRFF, OpRFL:
-			off += op.N
-		}
+		off += op.Count()
 	}
 	return true
 }
@@ -233,8 +258,7 @@ func Minimize(e *Env, prog Program, vs []Verdict, opt RunOpt) (Program, []Verdic
 	for changed := true; changed; {
 		changed = false
 		for i := range cur.Ops {
-			q := Program{Version: cur.Version, Conn: cur.Conn}
-			q.Ops = append(append([]Op{}, cur.Ops[:i]...), cur.Ops[i+1:]...)
+			q := cur.With(append(append([]Op{}, cur.Ops[:i]...), cur.Ops[i+1:]...))
 			if !validProgram(q) {
 				continue
 			}
